@@ -2,6 +2,8 @@
 (serde JSON of the *re-parsed emitted text*).  Contains the binder: every table/column reference is
 resolved against the scopes SQL defines; anything unbound or ambiguous raises BindError.
 """
+import re
+
 import z3
 from rel import *  # noqa
 
@@ -177,6 +179,16 @@ class SqlSem:
             return -self.const_int(e["UnaryOp"]["expr"])
         raise Unsupported(f"non-constant LIMIT/OFFSET {e}")
 
+    @staticmethod
+    def ordinal(e):
+        """a bare integer literal as a GROUP BY / ORDER BY term is a 1-based reference to an output column
+        (SQLite, PostgreSQL, MySQL, DuckDB, BigQuery, Snowflake; SQL-92 for ORDER BY)"""
+        if isinstance(e, dict) and "Value" in e:
+            v = e["Value"]["value"]
+            if isinstance(v, dict) and "Number" in v and re.fullmatch(r"[0-9]+", v["Number"][0]):
+                return int(v["Number"][0])
+        return None
+
     def setexpr(self, body, env, order_by=None, limit=None, offset=None):
         if "Select" in body:
             return self.select(body["Select"], env, order_by, limit, offset)
@@ -230,6 +242,13 @@ class SqlSem:
                 if opt.get("nulls_first") is not None or ob.get("with_fill"):
                     raise Unsupported("NULLS FIRST/LAST")
                 descs.append(opt.get("asc") is False)
+                k = self.ordinal(ob["expr"])
+                if k is not None:
+                    if not 1 <= k <= len(r.cols):
+                        raise BindError(f"ORDER BY term out of range: {k}")
+                    for i in range(len(rows)):
+                        keys[i].append(r.rows[i].cells[k - 1])
+                    continue
                 for i in range(len(rows)):
                     keys[i].append(self.expr(ob["expr"], ctx, i))
             order = (descs, keys)
@@ -367,6 +386,23 @@ class SqlSem:
         else:
             gexprs = []
         proj = s["projection"]
+        if any(self.ordinal(g) is not None for g in gexprs):
+            resolved = []
+            for g in gexprs:
+                k = self.ordinal(g)
+                if k is None:
+                    resolved.append(g)
+                    continue
+                if any(it == "Wildcard" or (isinstance(it, dict) and ("Wildcard" in it or "QualifiedWildcard" in it)) for it in proj):
+                    raise Unsupported("GROUP BY ordinal with a wildcard in the projection")
+                if not 1 <= k <= len(proj):
+                    raise BindError(f"GROUP BY term out of range: {k}")
+                it = proj[k - 1]
+                e = it["UnnamedExpr"] if "UnnamedExpr" in it else it["ExprWithAlias"]["expr"]
+                if has_agg(e):
+                    raise BindError("aggregate functions are not allowed in the GROUP BY clause")
+                resolved.append(e)
+            gexprs = resolved
         grouped = bool(gexprs) or has_agg(proj) or has_agg(s.get("having")) or (order_by and has_agg(order_by))
         n = len(ctx.rows)
         if grouped:
@@ -384,6 +420,13 @@ class SqlSem:
                 gctx.members = {0: allm}
                 gctx.member_ctx = ctx
             gctx.member_ctx = ctx
+            gctx.gkeys = list(gexprs)
+            gctx.plain = Ctx(gctx.cols, gctx.rows)
+            gctx.group_cols = set()
+            for g in gexprs:
+                if isinstance(g, dict) and ("Identifier" in g or "CompoundIdentifier" in g):
+                    parts = [g["Identifier"]["value"]] if "Identifier" in g else [p["value"] for p in g["CompoundIdentifier"]]
+                    gctx.group_cols |= set(ctx.lookup(parts)[:1])
             if s.get("having"):
                 hv = [is_true(self.expr(s["having"], gctx, i)) for i in range(len(gctx.rows))]
                 gctx.rows = [Row(band(r.present, hv[i]), r.cells) for i, r in enumerate(gctx.rows)]
@@ -455,6 +498,9 @@ class SqlSem:
         # ORDER BY scope: output aliases first, then source columns
         octx = Ctx(ectx.cols, ectx.rows)
         octx.members = ectx.members
+        for attr in ("gkeys", "plain", "group_cols"):
+            if hasattr(ectx, attr):
+                setattr(octx, attr, getattr(ectx, attr))
         if hasattr(ectx, "member_ctx"):
             octx.member_ctx = ectx.member_ctx
         octx.alias = {}
@@ -497,6 +543,8 @@ class SqlSem:
 
     # ---------------------------------------------------------------- expressions
     def expr(self, e, ctx, i):
+        if ctx.members is not None and any(g == e for g in getattr(ctx, "gkeys", ())):
+            return self.expr(e, ctx.plain, i)         # the expression is a GROUP BY key: constant within the group
         (k, v), = e.items() if isinstance(e, dict) and len(e) == 1 else (("?", e),)
         if k == "Identifier" or k == "CompoundIdentifier":
             parts = [v["value"]] if k == "Identifier" else [p["value"] for p in v]
@@ -517,8 +565,9 @@ class SqlSem:
                 if len(quals) > 1 or self.dialect != "sqlite":
                     raise BindError(f"ambiguous column name: {'.'.join(parts)}")
                 self.notes.add("duplicate column name inside one sub-query resolved to the first (SQLite rule)")
-            if ctx.members is not None and not getattr(ctx, "in_agg", False) and len(ctx.rows) == 1 and not hasattr(ctx, "leader_ok"):
-                pass
+            if ctx.members is not None and idx[0] not in getattr(ctx, "group_cols", ()):
+                # standard SQL rejects this; SQLite takes the value from an arbitrary row of the group
+                raise Unsupported(f"bare column {'.'.join(parts)} in an aggregate query (any row's value is correct for SQLite; other engines reject)")
             return ctx.rows[i].cells[idx[0]]
         if k == "Value":
             val = v["value"]
